@@ -11,7 +11,7 @@ NAMES = ("p0", "p1")
 
 class DSim:
     def __init__(self, expected=(None, None), can_dilate=(("ged",), ("ged",)), half=False, app=True, max_links=4,
-                 listen_late=False, stoppable=False, ping_interval=30.0, both_write=False, sides=("aa" * 8, "bb" * 8), peer_inert=False, throttle=False, no_listen=(False, False), silent_after_connect=False, lose_any=False, big_write=False):
+                 listen_late=False, stoppable=False, ping_interval=30.0, both_write=False, sides=("aa" * 8, "bb" * 8), peer_inert=False, throttle=False, no_listen=(False, False), silent_after_connect=False, lose_any=False, big_write=False, lazy_tcp=False):
         self.w = DWorld(sides=sides, expected=expected, can_dilate=can_dilate, ping_interval=ping_interval, no_listen=no_listen)
         self.w.__enter__()
         self.w.inert = peer_inert
@@ -19,6 +19,8 @@ class DSim:
         self.throttle = throttle
         self.half, self.app, self.max_links, self.stoppable, self.both_write = half, app, max_links, stoppable, both_write
         self.big_write = big_write      # the opener's second write on a subchannel is just under one Noise message (65515 bytes: encoded record 65524 > 65519)
+        self.lazy_tcp = lazy_tcp        # canonical run: a pending connection attempt completes only when nothing else can happen (so selection happens
+        #                                 while other attempts of the generation are still in flight)
         self.lose_any = lose_any        # any link may be lost at any time, also the only candidate of a generation (no convergence is claimed then)
         self.peer_inert = peer_inert     # an old peer without dilation support: never starts, never answers
         self.silent_after_connect = silent_after_connect   # canonical run: the link goes silent after convergence until the leader's monitor gives up
@@ -281,6 +283,8 @@ class DSim:
                 self.do(pick)
                 out.append(pick)
         net = ["start", "msg", "tcp", "data", "turn"]
+        if self.lazy_tcp:
+            net = ["start", "msg", "data", "turn", "tcp"]
         if self.throttle:
             return self.canonical_throttled(run, out, net)
         run(net)
@@ -358,10 +362,10 @@ def canonical(cfgname, configs):
             if not sim.peer_inert:
                 st = [s.state() for s in sim.w.sides]
                 if st != ["CONNECTED", "CONNECTED"]:
-                    raise AssertionError("canonical dilation run of config %r ended in %r after %d steps" % (cfgname, st, len(tr)))
+                    CANON_STALLED[cfgname] = "canonical dilation run of config %r ended in %r after %d steps" % (cfgname, st, len(tr))
                 exp = sim.w._args[1][1]
                 if sim.app and (exp is None or "p0" in exp) and not any(e[1] == "data" for e in sim.w.sides[1].applog):
-                    raise AssertionError("canonical dilation run of config %r delivered no subchannel data" % (cfgname,))
+                    CANON_STALLED.setdefault(cfgname, "canonical dilation run of config %r delivered no subchannel data" % (cfgname,))
             _canon[cfgname] = tr
         finally:
             sim.close()
@@ -375,6 +379,11 @@ def replay_actions(sim, actions):
             return False
         sim.do(a)
     return True
+
+
+# vacuity guard: an honest canonical run that does not reach its goal.  The prefixes of what there is are still explored (on modified code the
+# oracle usually says why the run stalled); a path that ends without a violation is inconclusive, never a pass.
+CANON_STALLED = {}
 
 
 class DExplore(Job):
@@ -468,6 +477,8 @@ class DExplore(Job):
             if self._oracle(sim, "settled") and self.final_phase(sim):
                 sim.settle()
                 self._oracle(sim, "settled")
+            if self.cfg in CANON_STALLED:
+                eng().note("canonical-stalled: " + CANON_STALLED[self.cfg])      # -> inconclusive unless the job found a violation (harness/common.py)
             eng().note("nt:explored")
         finally:
             sim.close()
